@@ -21,7 +21,7 @@
 (***************************************************************************)
 EXTENDS Integers, Sequences, FiniteSets, TLC
 
-Fields(cls) == CASE cls = "Z" -> <<>> [] cls = "A" -> <<"x">> [] cls = "B" -> <<"l", "r">>
+Fields(cls) == CASE cls = "Z" -> <<>> [] cls \in {"A", "A2"} -> <<"x">> [] cls = "B" -> <<"l", "r">>   \* A2: another class with A's fields
 
 Shared(k) ==
     CASE k = 1 -> <<"obj", "A", << <<"leaf", "none">> >>>>
